@@ -291,17 +291,21 @@ Definition leaf_tree (voc : list tok) (tab : list doc) (minLID maxLID : N) (p : 
   build_or_tree (map (fun t => NStatic (posting t minLID maxLID 1 tab)) (filter (pat_match p) voc)).
 
 (* ---------------------------------------------------------------- buildEvalTree *)
-Fixpoint build_tree (voc : list tok) (tab : list doc) (minLID maxLID : N) (q : query) : res ntree :=
+(* leaf = createLeafFunc: how a leaf token becomes a node *)
+Fixpoint build_tree_with (leaf : pat -> res ntree) (minLID maxLID : N) (q : query) : res ntree :=
   match q with
-  | QLeaf p => leaf_tree voc tab minLID maxLID p
-  | QNot a => bind (build_tree voc tab minLID maxLID a) (fun x => Ok (NNot x minLID maxLID))
-  | QAnd l r => bind (build_tree voc tab minLID maxLID l) (fun x =>
-                bind (build_tree voc tab minLID maxLID r) (fun y => Ok (NAnd x y)))
-  | QOr l r => bind (build_tree voc tab minLID maxLID l) (fun x =>
-               bind (build_tree voc tab minLID maxLID r) (fun y => Ok (NOr x y)))
-  | QNAnd n r => bind (build_tree voc tab minLID maxLID n) (fun x =>
-                 bind (build_tree voc tab minLID maxLID r) (fun y => Ok (NNAnd x y)))
+  | QLeaf p => leaf p
+  | QNot a => bind (build_tree_with leaf minLID maxLID a) (fun x => Ok (NNot x minLID maxLID))
+  | QAnd l r => bind (build_tree_with leaf minLID maxLID l) (fun x =>
+                bind (build_tree_with leaf minLID maxLID r) (fun y => Ok (NAnd x y)))
+  | QOr l r => bind (build_tree_with leaf minLID maxLID l) (fun x =>
+               bind (build_tree_with leaf minLID maxLID r) (fun y => Ok (NOr x y)))
+  | QNAnd n r => bind (build_tree_with leaf minLID maxLID n) (fun x =>
+                 bind (build_tree_with leaf minLID maxLID r) (fun y => Ok (NNAnd x y)))
   end.
+
+Definition build_tree (voc : list tok) (tab : list doc) (minLID maxLID : N) (q : query) : res ntree :=
+  build_tree_with (leaf_tree voc tab minLID maxLID) minLID maxLID q.
 
 (* ---------------------------------------------------------------- iterateEvalTree *)
 Definition id_eqb (a b : id) : bool := (fst a =? fst b) && (snd a =? snd b).
